@@ -232,3 +232,154 @@ def config_layer(props, quick=True):
                  'index labels, attribute columns with missing values, longest record first); complete output '
                  'compared with the reference model, discrepancies attributed to the property they break',
                  min_nontrivial=1000, chunksize=1)
+
+
+# ------------------------------------------------------------------ filters
+
+def w_filter_config(job):
+    """All option combinations of one filter's filter_tables (and filter_candset on its own output and on the
+    full cross product) on the rich tables."""
+    from checks.filters import make_filter
+    name, variant = job['filter'], job['variant']
+    L, R, lvals, rvals = rich_tables(variant)
+    sched.install()
+    viol = []
+    counts = {}
+    calls = cases = nontrivial = 0
+    lrec = L.to_dict('records')
+    rrec = R.to_dict('records')
+    lpos = {cell(r['x_id']): i for i, r in enumerate(lrec)}
+    rpos = {cell(r['y_id']): j for j, r in enumerate(rrec)}
+    reft = make_tokenizer(['ws', True])
+    ltok = [None if isna(v) else set(reft.tokenize(v)) for v in lvals]
+    rtok = [None if isna(v) else set(reft.tokenize(v)) for v in rvals]
+
+    def report(tag, cfg, msg):
+        counts[tag] = counts.get(tag, 0) + 1
+        if tag in job['props'] and len([v for v in viol if v['key'].startswith(tag)]) < MAXV:
+            viol.append({'key': '%s|fconfig|%s|v%d|%s|%s' % (tag, name, variant, cfg, msg[:60]),
+                         'what': '%s: %sFilter on the rich tables (variant %d) with %s: %s' % (tag, name, variant, cfg, msg),
+                         'detail': {}})
+    for (meas, t, op) in job['cfgs']:
+        for ae in ((True, False) if name != 'Overlap' else (True,)):
+            for am in (False, True):
+                must, empties, missing, nocommon = set(), set(), set(), set()
+                for i, a in enumerate(ltok):
+                    for j, b in enumerate(rtok):
+                        if a is None or b is None:
+                            missing.add((i, j))
+                        elif not a and not b:
+                            empties.add((i, j))
+                        elif a and b:
+                            o = len(a & b)
+                            if name == 'Overlap':
+                                if lvals[i] != '' and rvals[j] != '' and OPS[op](o, t):
+                                    must.add((i, j))
+                            elif classify(meas, sim_counts(meas, len(a), len(b), o), t, '>=') == 'must':
+                                must.add((i, j))
+                            if o == 0:
+                                nocommon.add((i, j))
+                        else:
+                            nocommon.add((i, j))
+                for (lo, ro) in ATTRS:
+                    for (lp, rp) in PREFIXES[:1] if (lo is None and not am) else PREFIXES:
+                        for nj in job['n_jobs']:
+                            cfg = '%s t=%r op=%s allow_empty=%s allow_missing=%s l_out=%s r_out=%s prefixes=%r n_jobs=%d' % (
+                                meas, t, op, ae, am, lo, ro, (lp, rp), nj)
+                            f = make_filter(name, make_tokenizer(['ws', True]), meas, t, ae, am, op)
+                            sched.CTL.reset()
+                            if name == 'Overlap':
+                                out = lib(f.filter_tables, L, R, 'x_id', 'y_id', 's', 't', lo, ro, lp, rp, True, nj, False)
+                            else:
+                                out = lib(f.filter_tables, L, R, 'x_id', 'y_id', 's', 't', lo, ro, lp, rp, nj, False)
+                            calls += 1
+                            cases += 1
+                            la, ra = dedup(lo, 'x_id'), dedup(ro, 'y_id')
+                            header = ['_id', lp + 'x_id', rp + 'y_id'] + [lp + a for a in la] + [rp + a for a in ra] + \
+                                     (['_sim_score'] if name == 'Overlap' else [])
+                            if list(out.columns) != header:
+                                report('C11', cfg, 'columns %r, expected %r' % (list(out.columns), header))
+                                continue
+                            if list(out['_id']) != list(range(len(out))):
+                                report('C10', cfg, '_id is %r' % (list(out['_id'])[:8],))
+                            seen = set()
+                            for row in out.values.tolist():
+                                i, j = lpos.get(cell(row[1])), rpos.get(cell(row[2]))
+                                if i is None or j is None or (i, j) in seen:
+                                    report('C10', cfg, 'unknown or repeated key pair %r' % (row[1:3],))
+                                    continue
+                                seen.add((i, j))
+                                exp_cells = [lrec[i][a] for a in la] + [rrec[j][a] for a in ra]
+                                if [cell(v) for v in row[3:3 + len(exp_cells)]] != [cell(v) for v in exp_cells]:
+                                    report('C11', cfg, 'pair (%r, %r) projects %r, source rows have %r' % (
+                                        lvals[i], rvals[j], row[3:3 + len(exp_cells)], exp_cells))
+                                if (i, j) in missing:
+                                    if not am:
+                                        report('C08', cfg, 'pair with a missing value listed although allow_missing=False')
+                                elif (i, j) in empties:
+                                    if not (ae and meas != 'OVERLAP' and name != 'Overlap'):
+                                        report('C09', cfg, 'both-empty pair (%r, %r) listed although not admitted' % (
+                                            lvals[i], rvals[j]))
+                                elif (i, j) in nocommon and name in ('Prefix', 'Position', 'Overlap'):
+                                    report('C14', cfg, 'pair without a common token listed: (%r, %r)' % (lvals[i], rvals[j]))
+                                elif name == 'Overlap' and lvals[i] != '' and rvals[j] != '':
+                                    o = len(ltok[i] & rtok[j])
+                                    if (i, j) not in must:
+                                        report('C06', cfg, 'pair (%r, %r) with overlap %d listed' % (lvals[i], rvals[j], o))
+                                    elif cell(row[-1]) != o:
+                                        report('C06', cfg, 'pair (%r, %r) has _sim_score %r, overlap is %d' % (
+                                            lvals[i], rvals[j], row[-1], o))
+                            nontrivial += len(must)
+                            for (i, j) in must - seen:
+                                report('C06' if name == 'Overlap' else 'C04', cfg,
+                                       'qualifying pair (%r, %r) not listed' % (lvals[i], rvals[j]))
+                            if am:
+                                for (i, j) in missing - seen:
+                                    report('C08', cfg, 'pair with a missing value not listed although allow_missing=True: '
+                                           '(%r, %r)' % (lvals[i], rvals[j]))
+                            if ae and meas != 'OVERLAP' and name != 'Overlap':
+                                for (i, j) in empties - seen:
+                                    report('C09', cfg, 'both-empty pair (%r, %r) not listed although allow_empty=True' % (
+                                        lvals[i], rvals[j]))
+                            # filter_candset on this very output (repeated row labels when n_jobs > 1 / allow_missing):
+                            # it must keep exactly the rows whose pair filter_pair does not drop
+                            if job.get('candset', True) and lo is None and len(out):
+                                f2 = make_filter(name, make_tokenizer(['ws', True]), meas, t, ae, am, op)
+                                sched.CTL.reset()
+                                oc = lib(f2.filter_candset, out, lp + 'x_id', rp + 'y_id', L, R, 'x_id', 'y_id', 's', 't',
+                                         nj, False)
+                                calls += 1
+                                expc = [tuple(cell(v) for v in row) for row in out.values.tolist()
+                                        if not lib(f2.filter_pair, lvals[lpos[cell(row[1])]], rvals[rpos[cell(row[2])]])]
+                                gotc = [tuple(cell(v) for v in row) for row in oc.values.tolist()]
+                                if gotc != expc:
+                                    report('C06', cfg, 'filter_candset on the filter_tables output keeps %d rows, row-wise '
+                                           'filter_pair keeps %d (first difference: %r)' % (
+                                               len(gotc), len(expc), [r for r in gotc if r not in expc][:1] or
+                                               [r for r in expc if r not in gotc][:1]))
+    mine = sum(v for k, v in counts.items() if k in job['props'])
+    return {'cases': cases, 'calls': calls, 'nontrivial': nontrivial,
+            'outcomes': {'configs': cases, 'clean': cases - sum(counts.values())},
+            'extra': dict({'fconfig_discrepancies_' + k: v for k, v in counts.items()}, violations=mine),
+            'viol': viol, 'sample': {'filter': name, 'variant': variant, 'configs': job['cfgs'][:3]}}
+
+
+def filter_config_layer(props, quick=True):
+    from mcx.engine import Layer
+    jobs = []
+    for name in ('Size', 'Prefix', 'Position', 'Overlap'):
+        if name == 'Overlap':
+            cfgs = [('OVERLAP', s_, op) for s_ in (1, 2, 3) for op in ('>=', '>', '=')]
+        else:
+            cfgs = [(m, t, '>=') for m in PRUNED_MEASURES for t in (0.4, 2.0 / 3, 1.0)] + \
+                   [('OVERLAP', s_, '>=') for s_ in (1, 2)]
+        for variant in (0, 1):
+            for c in range(0, len(cfgs), 3):
+                jobs.append({'filter': name, 'variant': variant, 'cfgs': cfgs[c:c + 3], 'n_jobs': [1, 2, 4],
+                             'props': list(props)})
+    return Layer('filter-config-cross', 'checks.configx:w_filter_config', jobs,
+                 'every combination of measure x threshold x allow_empty x allow_missing x output attributes x prefixes '
+                 'x n_jobs in {1,2,4} for filter_tables of Size / Prefix / Position / OverlapFilter on the two layouts '
+                 'of the feature-rich tables, plus filter_candset on that very output; complete output compared with '
+                 'the reference (qualifying pairs, missing, both-empty, no-common-token, header, projection, _id)',
+                 min_nontrivial=1000, chunksize=1)
